@@ -338,6 +338,8 @@ def replay(ctx, payload):
     inp = payload.get('input') or {}
     if 'ops' in inp and 'dag' in inp:
         dag = [(k, b, tuple(r)) for k, b, r in inp['dag']]
-        check_roundtrip(ctx, dag, G.lib_build(dag), inp['ops'], inp.get('tag', 'replay'))
+        for form in range(6):            # the argument form of store_bit rotates with a process-wide counter: replay every phase
+            S._BIT_FORM[0] = form
+            check_roundtrip(ctx, dag, G.lib_build(dag), inp['ops'], inp.get('tag', 'replay'))
     elif 'len' in inp and 'prefill' in inp:
         snake(ctx, int(inp['len']), int(inp['prefill']))
